@@ -2285,6 +2285,39 @@ def deepcopy_keeps_inherited_flags(repo, run, rule):
         run.ok(rule, repo.func('ComposedNode.__reduce__'), 'deep copy keeps what the children recorded (%d rows)' % rows, 'children attached before the state is restored / flags copied, not re-derived')
 
 
+def replace_self_propagates_result(repo, run, rule):
+    """ConfigNode._replace_self evaluated (promotion and propagation are recording stand-ins), with and without promotions: the node
+    whose inherited flags are pushed down to its children afterwards is the node that is returned - the survivor of the merge that
+    stays in the tree - and only that one (the consumed node's child map may still list nodes that now live in the survivor)"""
+    fi = repo.func('ConfigNode._replace_self')
+    bad = []
+    for promo, promoted in ((False, None), (True, 'self'), (True, 'other')):
+        me = node_obj('self', 'ConfigDict', _children={}, _metadata={})
+        other = node_obj('other', 'ConfigDict', _children={}, _metadata={}, _priority=1, _delete=True)
+        log = []
+
+        def stub(n, recv, a, k, log=log, me=me, other=other, promoted=promoted):
+            log.append((n, getattr(recv, 'name', recv)))
+            if n == '_maybe_promote':
+                return me if promoted == 'self' else other
+            return None
+        f = FDE(repo, stubs={'_maybe_promote', '_propagate_implicit_values'}, stub=stub)
+        r = fde_guard(lambda: f.call(fi, me, other, allow_promotions=promo))
+        want = me if promoted in (None, 'self') else other
+        what = '_replace_self(other, allow_promotions=%r)%s' % (promo, '' if promoted is None else ' where promotion answers %s' % promoted)
+        props = [x[1] for x in log if x[0] == '_propagate_implicit_values']
+        if r.raised or r.ret is not want:
+            bad.append('%s: %s' % (what, 'raises ' + str(r.raised) if r.raised else 'returns %r' % (r.ret,)))
+        elif props != [want.name]:
+            bad.append('%s: inherited flags are re-propagated on %s, expected on the returned node (%s) only' % (what, props or 'no node', want.name))
+        elif me.f.get('_priority') != 1 or me.f.get('_delete') is not True:
+            bad.append('%s: the winner\'s priority / delete flag are not adopted' % what)
+    if bad:
+        run.violation(rule, fi, '_replace_self: which node is re-propagated', '; '.join(bad[:2]))
+    else:
+        run.ok(rule, fi, '_replace_self re-propagates inherited flags on the node it returns (3 rows)')
+
+
 def tag_spec(repo, run, rule, tags):
     """the constructor registered for each of the given tags builds the node class the tag stands for, with the documented data
     handling (which argument receives the YAML value, whether scalars are parsed, whether a mapping is the data or the arguments) - and
